@@ -65,6 +65,19 @@ POOL += [
     "for x in range(2):\n    for y in range(2):\n        if y:\n            break\n    else:\n        continue\nwhile x:\n    x -= 1\nprint(x, y)\n",
 ]
 REJECTED = "x = 1\nwhile x:\n    x -= 1\nimport os\nfor i in [1]:\n    break\ndef f(a, b, c):\n    def g():\n        return a + b + c\n    return g\ntry:\n    pass\nfinally:\n    pass\n"
+# rejected programs that fail *in the middle* of the work: inside a lambda body, a comprehension, a nested function, a class
+# body, a loop, a default expression - whatever stack or set the conversion had pushed by then must not outlive the exception
+REJECTED_VARIANTS = [
+    REJECTED,
+    "x = 1\ngen = lambda x, y=2: (yield x)\n",
+    "def f(x):\n    def g():\n        return x\n    return [(yield) for x in [g()]]\n",
+    "def f(x, y):\n    def g():\n        nonlocal x\n        x += 1\n        return [await y for y in [x]]\n    return g\n",
+    "class K:\n    x = 1\n    y = [x for x in [(yield)]]\n",
+    "for x in range(3):\n    while x:\n        def f(g=lambda x: (yield x)):\n            return g\n        break\n",
+    "def f(x):\n    class K:\n        y = x\n        def m(self, x=x):\n            with x:\n                pass\n    return K\n",
+    "import os\nx = {k: (lambda x: (yield from x)) for k in 'ab'}\n",
+    "def f():\n    global g\n    g = [x for x in range(2) if (lambda x: (yield))]\n",
+]
 OPTION_VALUES = {"unparser": envs.UNPARSERS, "expr_wrapper": envs.WRAPPERS, "if_style": envs.IFSTYLES}
 ILLEGAL = [("unparser", "bogus"), ("expr_wrapper", None), ("if_style", 5), ("unparser", "Oneliner")]
 
@@ -321,11 +334,12 @@ class Runner:
                 self.rec.count("conversions-compared")
                 ok = self.compare(p, cfg, t, history, i) and ok
             elif kind == "bad":
+                bad_src = REJECTED_VARIANTS[(len(self.log) * 7 + i) % len(REJECTED_VARIANTS)]
                 try:
                     if a[1] is None or not objs:
-                        self.ol.convert_code_string(REJECTED)
+                        self.ol.convert_code_string(bad_src)
                     else:
-                        self.ol.convert_code_string(REJECTED, "<s>", objs[a[1] % len(objs)])
+                        self.ol.convert_code_string(bad_src, "<s>", objs[a[1] % len(objs)])
                     self.rec.count("rejected-program-converted?")
                 except Exception:
                     self.rec.count("rejected-conversions")
